@@ -4,13 +4,19 @@ def run(ctx):
     st = [dict(variant="asan", name="c16", sources=["checks/c16_dtls.c", "harness/mx_wraps.c"], wraps=WRAPS,
                shards=vflib.NCPU, timeout=10800 if ctx.thorough else 1500)]
     rule = ("Each case = (a) one delivery schedule - one fate per datagram in global send order: deliver, drop, duplicate, late duplicate, delay k rounds, swap with next, "
-            "delayed-and-duplicated; optionally spurious timer expiries - applied to a complete in-memory DTLS handshake (full / session-id resumed / client-auth / full with RFC 5077 ticket issued / resumed by ticket) plus a "
-            "bidirectional data exchange, driven with the reference applications' discipline in logical rounds: all 2^m drop patterns over the first m datagrams, every single "
-            "duplicate/swap/delay position, seeded random schedules, every single spurious-timeout point; or (b) one replay case on a fork()ed clone of an established session "
+            "delayed-and-duplicated; optionally spurious timer expiries; optionally 'eager writers' (client, server or both write their first application datagram the moment their OWN "
+            "handshake is reported complete, i.e. the sender of the final flight writes before its peer has seen that flight) - applied to a complete in-memory DTLS handshake (full / "
+            "session-id resumed / client-auth / full with RFC 5077 ticket issued / resumed by ticket) plus a "
+            "bidirectional data exchange, driven with the reference applications' discipline in logical rounds: all 2^m drop patterns over the first m datagrams (PSK: again with both sides "
+            "eager, thorough also client-only / server-only), every single duplicate/swap/delay position (PSK: again with both eager), seeded random schedules (random eager mode), every single "
+            "spurious-timeout point, loss of the final flight of the configuration's clean handshake followed by drop patterns over the next datagrams (no / final-flight sender / both eager) "
+            "and, for ECDHE-ECDSA, every single datagram lost alone repeated under 2-3 (thorough 12) entropy variations, because ECDSA signature lengths vary and ServerKeyExchange / "
+            "CertificateVerify flights are rebuilt around the cached signature; the entropy of every schedule case is a function of its spec and the seed; or (b) one replay case on a fork()ed clone of an established session "
             "(four establishment variants): each captured record / multi-record datagram (epoch 0 handshake, Finished, application data, superseded-epoch Finished) replayed at "
             "each position of a fresh exchange alone, after the peer's Finished, twice, or in pairs; and the sequence-gap family (g = 1..40 datagrams lost in a row, then replays "
-            "of the post-gap, pre-gap, older and late in-window records). Suites PSK-CBC (0x008c, 0x00ae), RSA-CBC/GCM (0x002f, 0x009c), ECDHE-RSA-CBC/GCM (0xc013, 0xc02f) x "
-            "DTLS 1.0/1.2 x PMTU 1500/600/400 (256 for PSK). distinct_nontrivial = distinct (version, suite, PMTU, handshake kind, fates actually consumed, spurious events) for "
+            "of the post-gap, pre-gap, older and late in-window records). Suites PSK-CBC (0x008c, 0x00ae), RSA-CBC/GCM (0x002f, 0x009c), ECDHE-RSA-CBC/GCM (0xc013, 0xc02f), "
+            "ECDHE-ECDSA-CBC/GCM (0xc009, 0xc02b; thorough also 0xc023, 0xc02c; P-256 sample identities on both sides for client-auth) x "
+            "DTLS 1.0/1.2 x PMTU 1500/600/400 (256 for PSK). distinct_nontrivial = distinct (version, suite, PMTU, handshake kind, fates actually consumed, options = spurious events + eager writers + entropy variation) for "
             "schedules and distinct (version, suite, PMTU, kind, establishment, mode, record identity (direction, epoch, sequence, datagram?), second record, position) or "
             "(…, gap, variant, direction) for replays.")
     return vflib.std_run(ctx, st, "fault_enumeration", rule,
@@ -19,5 +25,8 @@ def run(ctx):
          "completed client never times out, resumed-complete server never resends), except in the explicitly generated spurious-timeout class",
          "rehandshakes are compiled out in this configuration, so 'previous epoch' means epoch 0 and the epoch of a superseded (retransmitted) Finished",
          "PMTU 256 is only exercised with PSK suites: a 2048-bit RSA ClientKeyExchange/ServerKeyExchange/CertificateVerify does not fit one 256-byte datagram and the library answers internal_error by design",
-         "an application datagram that the schedule itself delays across rounds carries no delivery obligation (a record of a superseded epoch may be discarded); at-most-once still applies"],
+         "an application datagram that the schedule itself delays across rounds carries no delivery obligation (a record of a superseded epoch may be discarded); at-most-once still applies",
+         "an application datagram of an eager writer carries a delivery obligation only if it reaches a peer whose handshake is already complete and no datagram of a higher epoch of the same "
+         "direction was delivered before it (RFC 6347 4.1: data arriving before the handshake completes may be buffered or discarded; this library discards); the handshake-completion, "
+         "no-error and at-most-once oracles apply unchanged, and data written after both completions must be delivered"],
         min_nontrivial=2000)
